@@ -169,7 +169,8 @@ func genConfigs(bo *backendOpts, r *simrt.Rand, n int) []config {
 		}
 	}
 	var out []config
-	out = append(out, config{Backend: "go", Rec: true}, config{Backend: "fastgo", Rec: true}, config{Backend: "go"})
+	out = append(out, config{Backend: "go", Rec: true}, config{Backend: "fastgo", Rec: true}, config{Backend: "go"},
+		config{Backend: "fastgo", Opts: []string{"no_fmt"}, Rec: true}, config{Backend: "go", Opts: []string{"no_fmt"}, Rec: true})
 	for _, nm := range names {
 		for _, v := range optVariants(nm) {
 			out = append(out, config{Backend: "go", Opts: []string{v}, Rec: r.Chance(2, 3)})
@@ -189,9 +190,15 @@ func genConfigs(bo *backendOpts, r *simrt.Rand, n int) []config {
 			opts = append(opts, vs[r.Intn(len(vs))])
 		}
 		be := "go"
-		if r.Chance(1, 8) {
+		if r.Chance(1, 6) {
+			// the fastgo backend accepts the same option list
 			be = "fastgo"
-			opts = nil
+			if r.Chance(1, 2) {
+				opts = nil
+			}
+			if r.Chance(1, 3) {
+				opts = append(opts, "no_fmt")
+			}
 		}
 		out = append(out, config{Backend: be, Opts: opts, Rec: r.Chance(2, 3)})
 	}
